@@ -161,7 +161,9 @@ class Hostile(object):
                 continue
             if f.end_headers and cur is not None:
                 try:
-                    hs = [(bytes(n), bytes(v)) for n, v in self.mdec.decode(buf, raw=True)]
+                    dec = self.mdec.decode(buf, raw=True)
+                    hs = [(bytes(n), bytes(v)) for n, v in dec]
+                    self.last_decoded_flags = [(bytes(x[0]), bytes(x[1]), getattr(x, 'indexable', True) is False) for x in dec]
                     out.append((cur, hs))
                 except Exception as e:        # noqa
                     out.append((cur, e))
